@@ -109,6 +109,10 @@ def op_term(o):
     raise ValueError(n)
 
 
+def cop_term(o):
+    return o[0] if o[0] in ("Enter", "Exit") else "(Do %s)" % op_term(o)
+
+
 # Which rename_genes is under test: "as-implemented" (a gene marked for removal is always removed: known finding
 # C02-rename-genes-chain) or "repaired" (fixes/rename-genes-chain.patch).  Both are modelled (RenameGenes /
 # RenameGenesFixed in coq/theories/Genes/Model.v); one probe decides, then every step must match that variant.
@@ -175,6 +179,10 @@ class Impl:
                     rename_genes(M, {"g%d" % k: "g%d" % v for k, v in a[0]})
                 elif n == "Repair":
                     M.repair()
+                elif n == "Enter":
+                    M.__enter__()
+                elif n == "Exit":
+                    M.__exit__(None, None, None)
                 else:
                     raise RuntimeError("unknown op " + n)
                 return "Ok"
@@ -583,7 +591,325 @@ def python_lines(case):
             out.append("rename_genes(M, %r)" % {"g%d" % k: "g%d" % v for k, v in a[0]})
         elif n == "Repair":
             out.append("M.repair()")
+        elif n == "Enter":
+            out.append("M.__enter__()")
+        elif n == "Exit":
+            out.append("M.__exit__(None, None, None)")
     return out
+
+
+# ================================================================== contexts (C03): run_ctx
+CASE_TYPE_CTX = "obs * list (cop * obs)"
+CODES_CTX = {4: "genes kernel: the model is not what it was when the block was entered (C03)",
+             5: "genes kernel: __exit__ raised (C03)"}
+# Reversible by documentation / by the quantifier of C03: gene rules, adding and removing reactions (with orphans),
+# remove_genes, rename_genes.  Model.repair() is not documented as reversible: never inside a block.
+# Scope rule (as in harness/core.py): inside a block a rule is only set on a reaction that is in the model at that
+# moment -- a reaction outside the model cannot see the model's context, its edits are not recorded by design.
+
+
+class InvalidCase(Exception):
+    pass
+
+
+def ctx_scope_ok(im, depth, o):
+    if o[0] == "RenameGenes" and value_is_other_key(o) and VARIANT["rename"] != "repaired":
+        return False        # known finding C02-rename-genes-chain leaves an inconsistent model behind (C02's business)
+    if depth == 0:
+        return o[0] != "Exit"
+    if o[0] == "Repair":
+        return False
+    if o[0] == "SetRule" and im.rx[o[1]]._model is not im.model:
+        return False
+    return True
+
+
+def run_case_ctx(case):
+    im = Impl(case.get("nr", 4))
+    obs0 = im.observe()
+    steps, depth = [], 0
+    for o in case["ops"]:
+        if not ctx_scope_ok(im, depth, o):
+            raise InvalidCase(str(o))
+        res = im.apply(o)
+        depth += 1 if o[0] == "Enter" else (-1 if o[0] == "Exit" else 0)
+        steps.append(im.observe(res))
+    if depth != 0:
+        raise InvalidCase("open block")
+    return obs0, steps
+
+
+def gen_ctx_history(rng, length, nr=4, odd_p=0.1):
+    im = Impl(nr)
+    M = im.model
+    ops = []
+    allg = list(range(NG))
+    depth, blocks = 0, 0
+
+    def in_model():
+        return [k for k, r in enumerate(im.rx) if r._model is M]
+
+    def mg():
+        return [gnum(g.id) for g in M.genes if gnum(g.id) is not None]
+
+    def do(o):
+        im.apply(o)
+        ops.append(o)
+
+    for r in rng.sample(range(nr), min(nr, rng.choice([1, 2, 2, 3]))):
+        do(["SetRule", r, rand_tree(rng, allg[:rng.choice([3, 4, 7])]), "str"])
+        do(["AddRxn", r])
+    W = ["SetRule"] * 8 + ["AddRxn"] * 4 + ["RemoveRxn"] * 4 + ["RemoveGenes"] * 4 + ["RenameGenes"] * 4 + ["Repair"]
+    guard = 0
+    while len(ops) < length and guard < length * 20:
+        guard += 1
+        x = rng.random()
+        if x < 0.2 and depth < 2 and blocks < 3:
+            do(["Enter"])
+            depth += 1
+            blocks += 1
+            continue
+        if x < 0.3 and depth > 0 and ops[-1][0] != "Enter":
+            do(["Exit"])
+            depth -= 1
+            continue
+        n = rng.choice(W)
+        odd = rng.random() < odd_p
+        o = None
+        if n == "SetRule":
+            c = in_model() if (depth or rng.random() < 0.6) else list(range(nr))
+            if c:
+                t = None if rng.random() < 0.1 else rand_tree(rng, mg() if (mg() and rng.random() < 0.5) else allg)
+                o = ["SetRule", rng.choice(c), t, rng.choice(["str", "str", "gpr"])]
+        elif n == "AddRxn":
+            c = [k for k in range(nr) if k not in in_model()]
+            if odd and in_model():
+                o = ["AddRxn", rng.choice(in_model())]
+            elif c:
+                o = ["AddRxn", rng.choice(c)]
+        elif n == "RemoveRxn":
+            c = in_model()
+            if c:
+                o = ["RemoveRxn", rng.choice(c), rng.random() < 0.6, rng.choice(["obj", "id", "method"])]
+        elif n == "RemoveGenes":
+            if mg():
+                l = [rng.choice(mg()) for _ in range(rng.choice([1, 1, 2]))]
+                if odd:
+                    l[0] = rng.choice(allg)               # possibly unknown: raises inside the block
+                o = ["RemoveGenes", l, rng.random() < 0.5, rng.choice(["id", "obj", "fresh"])]
+        elif n == "RenameGenes":
+            if mg():
+                d = []
+                for _ in range(rng.choice([1, 1, 2, 3])):
+                    k = rng.choice(mg()) if not odd else rng.choice(allg)
+                    if all(k != kk for kk, _ in d):
+                        d.append([k, rng.choice(allg) if rng.random() < 0.7 else (d[-1][1] if d else k)])
+                o = ["RenameGenes", d]
+        elif n == "Repair":
+            o = ["Repair"]
+        if o is None or not ctx_scope_ok(im, depth, o):
+            continue
+        do(o)
+    while depth > 0:
+        do(["Exit"])
+        depth -= 1
+    return {"nr": nr, "ops": ops}
+
+
+def evaluate_ctx(cases):
+    terms, impl, idx = [], [], []
+    for i, c in enumerate(cases):
+        try:
+            obs0, steps = run_case_ctx(c)
+        except InvalidCase:
+            impl.append(None)
+            continue
+        terms.append("(%s, [%s])" % (obs_term(obs0), "; ".join("(%s, %s)" % (cop_term(o), obs_term(s))
+                                                               for o, s in zip(c["ops"], steps))))
+        impl.append((obs0, steps))
+        idx.append(i)
+    res, faults = K.coq_eval_cases(HEADER, terms, CASE_TYPE_CTX, "failing_ctx", shard=25, timeout=900)
+    return {idx[i]: lst for i, lst in res}, faults, impl
+
+
+def simpler_ctx(case):
+    ops = case["ops"]
+    n = len(ops)
+    out = []
+    for i in range(n - 1):
+        if ops[i][0] not in ("Enter", "Exit"):
+            out.append(ops[:i] + ops[i + 1:])
+    for i, o in enumerate(ops):
+        if o[0] == "Enter":                      # drop a block's brackets together
+            d = 0
+            for j in range(i, n):
+                d += 1 if ops[j][0] == "Enter" else (-1 if ops[j][0] == "Exit" else 0)
+                if d == 0:
+                    out.append([x for t, x in enumerate(ops) if t not in (i, j)])
+                    break
+        if o[0] in ("RemoveGenes", "RenameGenes") and len(o[1]) > 1:
+            for j in range(len(o[1])):
+                out.append(ops[:i] + [[o[0], o[1][:j] + o[1][j + 1:]] + o[2:]] + ops[i + 1:])
+        if o[0] == "SetRule" and o[2] is not None and o[2][0] != "g":
+            for ch in o[2][1]:
+                out.append(ops[:i] + [["SetRule", o[1], ch] + o[3:]] + ops[i + 1:])
+    return [{"nr": case.get("nr", 4), "ops": x} for x in out]
+
+
+def cut_after(case, step):
+    """The history up to `step` (1-based), open blocks closed."""
+    ops = case["ops"][:max(step, 1)]
+    d = sum(1 if o[0] == "Enter" else (-1 if o[0] == "Exit" else 0) for o in ops)
+    return {"nr": case.get("nr", 4), "ops": ops + [["Exit"]] * max(d, 0)}
+
+
+def shrink_ctx(case, want, rounds=30):
+    cur = case
+    r, f, _ = evaluate_ctx([cur])
+    if f or 0 not in r:
+        return cur
+    cur = cut_after(cur, min(s for s, code in r[0] if code in want))
+    for _ in range(rounds):
+        cands = simpler_ctx(cur)
+        if not cands:
+            break
+        try:
+            r, f, _ = evaluate_ctx(cands)
+        except Exception:
+            break
+        if f:
+            break
+        got = None
+        for i in sorted(r):
+            if any(code in want for _, code in r[i]):
+                got = cut_after(cands[i], min(s for s, code in r[i] if code in want))
+                break
+        if got is None or got == cur:
+            break
+        cur = got
+    return cur
+
+
+def adds_formerly_in_model(case, step):
+    """Inside the block closed at `step` an AddRxn puts back a reaction that had been in the model before
+    (so that its gene set consists of the model's own gene objects)."""
+    ops = case["ops"]
+    d, start = 0, None
+    for j in range(step - 1, -1, -1):
+        d += 1 if ops[j][0] == "Exit" else (-1 if ops[j][0] == "Enter" else 0)
+        if d == 0:
+            start = j
+            break
+    if start is None:
+        return False
+    was_in, now_in = set(), set()
+    for j, o in enumerate(ops[:step]):
+        if o[0] == "AddRxn":
+            if j > start and o[1] in was_in and o[1] not in now_in:
+                return True
+            was_in.add(o[1])
+            now_in.add(o[1])
+        elif o[0] == "RemoveRxn":
+            now_in.discard(o[1])
+        elif o[0] == "RemoveGenes" and o[2]:
+            now_in = set()          # which reactions leave depends on the rules: be conservative (they may come back)
+            # (a reaction that did not leave and is "added again" is ignored by add_reactions)
+    return False
+
+
+def run_ctx(rep, args, rng):
+    """Called by core.main for C03: gene operations inside 1-2 nested `with model:` blocks; codes 4 and 5."""
+    t0 = time.time()
+    probe_variant()
+    if args.replay:
+        data = json.load(open(args.replay))
+        if data.get("kernel") != "genes":
+            return {"skipped": "replay of a case of the core kernel"}
+        cases = [data["case"]]
+        n_corpus = 0
+    else:
+        n, L = (250, 16) if args.tier == "quick" else (5000, 30)
+        cases = []
+        cdir = os.path.join(K.VERIF, "corpus", "C03", "genes")
+        if os.path.isdir(cdir):
+            for f in sorted(os.listdir(cdir)):
+                if f.endswith(".json"):
+                    cases.append(json.load(open(os.path.join(cdir, f)))["case"])
+        n_corpus = len(cases)
+        for _ in range(n):
+            cases.append(gen_ctx_history(rng, rng.randrange(8, L + 3), nr=rng.choice([3, 4, 4, 5])))
+    res, faults, impl = evaluate_ctx(cases)
+    if faults:
+        print("HARNESS FAULT (genes kernel, contexts): model evaluation failed:\n" + "\n".join(faults[:3]))
+        rep.violation({"broken": True, "kernel": "genes"},
+                      {"kernel": "genes", "broken_obligations": ["model evaluation (coqc on generated cases) failed: " +
+                                                                 faults[0][-800:]],
+                       "note": "the correspondence machinery of the genes kernel no longer runs; no failing input found"},
+                      no_input=True)
+    op_hist, in_block, n_steps, n_blocks, nested = {}, {}, 0, 0, 0
+    for c, ob in zip(cases, impl):
+        if ob is None:
+            continue
+        d = 0
+        for o in c["ops"]:
+            n_steps += 1
+            op_hist[o[0]] = op_hist.get(o[0], 0) + 1
+            if o[0] == "Enter":
+                d += 1
+                nested += d >= 2
+            elif o[0] == "Exit":
+                d -= 1
+                n_blocks += 1
+            elif d > 0:
+                in_block[o[0]] = in_block.get(o[0], 0) + 1
+    own = {4, 5}
+    seen, reported, n_fail = set(), [], 0
+    for idx in sorted(res):
+        mine = [(s, c) for s, c in res[idx] if c in own]
+        if not mine:
+            continue
+        n_fail += 1
+        first = min(s for s, _ in mine)
+        codes = tuple(sorted({c for s, c in mine if s == first}))
+        key = (codes, adds_formerly_in_model(cases[idx], first))
+        if key in seen or len(seen) >= 8:
+            continue
+        seen.add(key)
+        small = cases[idx] if args.replay else shrink_ctx(cases[idx], set(codes))
+        r2, _, impl2 = evaluate_ctx([small])
+        lst2 = [(s, c) for s, c in (r2.get(0) or res[idx]) if c in own] or mine
+        first2 = min(s for s, _ in lst2)
+        codes2 = sorted({c for s, c in lst2 if s == first2})
+        inside = []
+        d = 0
+        for o in reversed(small["ops"][:first2 - 1]):
+            d += 1 if o[0] == "Exit" else (-1 if o[0] == "Enter" else 0)
+            if d < 0:
+                break
+            inside.append(o[0])
+        sig = {"kernel": "genes", "code": codes2[0], "codes_at_step": codes2, "op": "Exit",
+               "ops_in_block": sorted(set(inside) - {"Enter", "Exit"}),
+               "adds_formerly_in_model": adds_formerly_in_model(small, first2)}
+        replay = {"kernel": "genes", "case": small, "failed": CODES_CTX.get(sig["code"], str(sig["code"])),
+                  "failing_steps": lst2,
+                  "implementation_observation": {"initial": impl2[0][0], "after_each_op": impl2[0][1]} if impl2[0] else None,
+                  "python": python_lines(small),
+                  "how_to_read": "as for the C02 genes cases; Enter / Exit = model.__enter__() / model.__exit__(None, None, None); "
+                                 "code 4 compares the observation after the Exit with the one at the matching Enter "
+                                 "(coq/theories/Genes/Check.v `restored`), code 5 = the exit raised",
+                  "theorem": "coq/theories/Properties/C03.v (C03_genes_*)"}
+        reported.append({"signature": sig, "status": rep.violation(sig, replay)})
+    return {"histories": len(cases), "histories_outside_scope": sum(1 for x in impl if x is None), "steps_observed": n_steps,
+            "blocks_closed": n_blocks, "nested_blocks_entered": nested, "corpus_cases": n_corpus,
+            "rename_genes_variant_under_test": VARIANT["rename"],
+            "op_distribution": op_hist, "ops_inside_blocks": in_block, "histories_failing": n_fail, "reported": reported,
+            "samples": [cases[i] for i in sorted({0, len(cases) // 2, len(cases) - 1})] if cases else [],
+            "rule": "random histories of gene operations (rules, add/remove reactions with and without orphans, remove_genes "
+                    "incl. unknown identifiers that raise, rename_genes) with up to three blocks nested at most two deep, "
+                    "drawn while executing on the real Model; the observation at every __enter__ is compared with the one "
+                    "after the matching __exit__ (Coq `restored`); inside a block rules are only set on reactions that are "
+                    "in the model, repair() is not called, dictionaries with a value that is another key are not used",
+            "run_s": round(time.time() - t0, 1)}
 
 
 if __name__ == "__main__":
@@ -603,7 +929,7 @@ if __name__ == "__main__":
             print("VIOLATION(genes, stand-alone)", json.dumps(sig), json.dumps(replay.get("case")), replay.get("failing_steps"))
             return "new"
     rp = _Rep()
-    cov = run(rp, a, random.Random(a.seed))
+    cov = (run_ctx if os.environ.get("GENES_CTX") else run)(rp, a, random.Random(a.seed))
     cov.pop("samples", None)
     print(json.dumps(cov, indent=1))
     sys.exit(1 if rp.violations else 0)
